@@ -134,9 +134,42 @@ def nonzero_denominators(goal, var=None, interval=None):
             return False
     return True
 
+def radicands(t):
+    """Return the list of arguments of sqrt occurring in t."""
+    if t.is_comb('sqrt', 1):
+        return radicands(t.arg) + [t.arg]
+    elif t.is_comb():
+        return radicands(t.fun) + radicands(t.arg)
+    elif t.is_abs():
+        return radicands(t.body)
+    else:
+        return []
+
+def nonneg_radicands(goal, var=None, interval=None):
+    """Whether all arguments of sqrt in goal are nonnegative (on the given interval).
+
+    SymPy simplifies sqrt(x) ** 2 to x, which is wrong for negative x over
+    the reals, so a goal can be handed to SymPy only if no radicand can be
+    negative.
+
+    """
+    for rad in radicands(goal):
+        try:
+            sympy_rad = convert(rad)
+        except SymPyException:
+            return False
+        if sympy_rad.free_symbols:
+            if var is None or sympy_rad.free_symbols != {var}:
+                return False
+            if sympy.solveset(sympy_rad < 0, var, interval) != sympy.EmptySet:
+                return False
+        elif sympy_rad.is_nonnegative is not True:
+            return False
+    return True
+
 def solve_goal(goal):
     """Attempt to solve goal using sympy."""
-    if not nonzero_denominators(goal):
+    if not nonzero_denominators(goal) or not nonneg_radicands(goal):
         return False
 
     if goal.is_not() and goal.arg.is_equals():
@@ -191,7 +224,7 @@ def solve_with_interval(goal, cond):
     interval = convert(cond.arg)
 
     try:
-        if not nonzero_denominators(goal, var, interval):
+        if not nonzero_denominators(goal, var, interval) or not nonneg_radicands(goal, var, interval):
             return False
     except (TypeError, NotImplementedError, ValueError):  # raised by Sympy
         return False
